@@ -43,6 +43,15 @@ REG.bounded_check("C01.instrumented_execution", ["C01"], "C01.bounded",
                   covers=["NameCheckVisitor (assignment, branching, loops, try/except, narrowing, unpacking, indexing, calls to annotated and generic functions, match)",
                           "stacked_scopes lookups", "implementation impl functions", "patma"],
                   bound="23 programs x 1-4 argument tuples: every evaluated Name/Subscript/Call/BinOp/IfExp/BoolOp/Compare node's runtime value must belong to its inferred type (annotate_code)")
+REG.bounded_check("C01.unpacking", ["C01"], "C01.unpack",
+                  covers=["value._unpack_sequence_value (also under contract: the bounded run checks the semantic reading the contract's position rules stand for)"],
+                  bound="SequenceValues of <= 4 members (every single/unpacked pattern, pairwise distinct member types) x target_length 0..5 x post_starred_length in {None, 0, 1, 2}: "
+                        "every admitted concrete sequence (each unpacked member repeated 0..targets+1 times) of a fitting length is unpacked soundly position by position")
+REG.bounded_check("C02.narrowing_programs", ["C02"], "C02.programs",
+                  covers=["predicates.EqualsPredicate (enum members against wider declared types, bool)", "implementation.len_of_value / len_transformer on tuples with an unpacked part",
+                          "FunctionScope._add_composite / set (nested composites reset by an assignment to an ancestor)", "value._unpack_sequence_value through assignments"],
+                  bound="6 programs x 3-5 argument tuples, executed under CPython with every evaluated node instrumented: in each branch the runtime value of the narrowed variable belongs "
+                        "to the type it is narrowed to there (arguments equal to a literal of another type, 1 == True, are known finding D54 and kept out)")
 REG.bounded_check("C10.determinism", ["C10"], "C10.bounded",
                   covers=["the whole checker on the corpus: union member order, listed names, message text"],
                   bound="15 source files (format mapping keys, unexpected keywords, or/and narrowing, `in` narrowing, unused variables, branch unions, protocols, overloads, try/with definitions, nested functions, stdlib calls, iterator classes) x PYTHONHASHSEED in {0,1,2,3,5,7} (thorough: 0..15) in fresh subprocesses (full rendered messages compared); two check orders in one process; one Checker shared by all files (both orders) against the fresh-Checker baseline; 2 non-importable scripts checked without a module object, alone and after each other; module-name tokens normalised")
